@@ -97,7 +97,8 @@ Definition get_notes (s : rscore) : option (list row) := tracks_rows s 0 (track_
    duration in QUARTERS to a duration in seconds. *)
 Record event := mkEv { e_pitch : Z; e_off : Q; e_dur : Q; e_vel : Z; e_track : nat; e_sil : bool }.
 
-Definition secs (tpq tempo : Z) (ticks : Z) : Q := (inject_Z ticks / inject_Z tpq * (60 # 1) / inject_Z tempo)%Q.
+(* tempo is any rational number of beats per minute (72.5, 59.94 ...): the implementation divides by the number it is given *)
+Definition secs (tpq : Z) (tempo : Q) (ticks : Z) : Q := (inject_Z ticks / inject_Z tpq * (60 # 1) / tempo)%Q.
 Definition quarters (tpq : Z) (ticks : Z) : Q := (inject_Z ticks / inject_Z tpq)%Q.
 
 Fixpoint nlook (k : nat) (d : list (nat * list event)) : option (list event) :=
@@ -114,7 +115,7 @@ Definition extend_last (l : list event) (x : Q) : list event :=
   | e :: r => rev (mkEv (e_pitch e) (e_off e) (e_dur e + x)%Q (e_vel e) (e_track e) (e_sil e) :: r)
   end.
 
-Definition ev_step (cont_scaled : bool) (tpq tempo : Z) (d : list (nat * list event)) (r : row) : list (nat * list event) :=
+Definition ev_step (cont_scaled : bool) (tpq : Z) (tempo : Q) (d : list (nat * list event)) (r : row) : list (nat * list event) :=
   let so := secs tpq tempo (r_off r) in
   let sd := secs tpq tempo (r_dur r) in
   let t := r_track r in
@@ -134,7 +135,7 @@ Fixpoint insert_q {A} (key : A -> Q) (x : A) (l : list A) : list A :=
   end.
 Definition sort_q {A} (key : A -> Q) (l : list A) : list A := fold_right (insert_q key) [] l.
 
-Definition matrix_to_events (cont_scaled : bool) (tpq tempo : Z) (rows : list row) : list event :=
+Definition matrix_to_events (cont_scaled : bool) (tpq : Z) (tempo : Q) (rows : list row) : list event :=
   let m := sort_key r_off rows in
   let d := fold_left (ev_step cont_scaled tpq tempo) m [] in
   sort_q e_off (filter (fun e => negb (e_sil e)) (flat_map snd d)).
@@ -152,6 +153,6 @@ Definition ev_eqb (a b : event) : bool :=
   (e_pitch a =? e_pitch b) && Qeq_bool (e_off a) (e_off b) && Qeq_bool (e_dur a) (e_dur b) && (e_vel a =? e_vel b).
 
 (* (scaled ? , score, tpq, tempo, expected events) *)
-Definition check_events (x : bool * rscore * Z * Z * option (list event)) : bool :=
+Definition check_events (x : bool * rscore * Z * Q * option (list event)) : bool :=
   let '(sc, s, tpq, tempo, r) := x in
   option_eqb (list_eqb ev_eqb) (option_map (matrix_to_events sc tpq tempo) (get_notes s)) r.
